@@ -14,7 +14,7 @@ namespace {
 
 enum Obj { T0, T1, A0, U0, U1, NOBJ };
 const char* ONAME[] = { "T0", "T1", "A0", "U0", "U1" };
-enum OpK { OPEN4, OPEN6, BIND, CONNECT, CLOSE, MOVE, DESTROY, LISTEN, CLOSE_NOARG, ACCEPT_ONE, CLOSE_ACCEPTED };
+enum OpK { OPEN4, OPEN6, BIND, CONNECT, CLOSE, MOVE, DESTROY, LISTEN, CLOSE_NOARG, ACCEPT_ONE, CLOSE_ACCEPTED, SEND_UNBOUND /* UDP: send_to on an open socket that was never bound: the socket binds itself to the wildcard of its family, port 0 */ };
 struct Op { Obj o; OpK k; int ep; };
 
 struct EpSpec { const char* a; int port; };
@@ -30,7 +30,7 @@ std::vector<Op> all_ops()
 		for (int e = 0; e < NEPS; ++e) r.push_back(Op{ o, BIND, e });
 		r.push_back(Op{ o, CLOSE, 0 }); r.push_back(Op{ o, DESTROY, 0 });
 		if (o == T0 || o == T1) { r.push_back(Op{ o, CONNECT, 0 }); r.push_back(Op{ o, MOVE, 0 }); }
-		if (o == U0 || o == U1) r.push_back(Op{ o, MOVE, 0 });
+		if (o == U0 || o == U1) { r.push_back(Op{ o, MOVE, 0 }); r.push_back(Op{ o, SEND_UNBOUND, 0 }); }
 		if (o == A0) { r.push_back(Op{ o, LISTEN, 0 }); r.push_back(Op{ o, CLOSE_NOARG, 0 }); r.push_back(Op{ o, ACCEPT_ONE, 0 }); r.push_back(Op{ o, CLOSE_ACCEPTED, 0 }); }
 	}
 	return r;
@@ -121,6 +121,7 @@ struct Sys
 			case CLOSE_NOARG: return true;
 			case ACCEPT_ONE: return s.listening && !acc_alive;
 			case CLOSE_ACCEPTED: return acc_alive;
+			case SEND_UNBOUND: return s.open && !s.bound;
 		}
 		return false;
 	}
@@ -155,6 +156,27 @@ struct Sys
 	{
 		MSock& s = m[op.o]; error_code ec;
 		std::string what = std::string(ONAME[op.o]) + ".";
+		if (op.k == SEND_UNBOUND) {
+			// reference: as bind(wildcard of the socket's family, port 0)
+			std::string first; for (auto const& ipx : { a1, a2 }) { ip::address x = addr(ipx.c_str()); if (x.is_v4() == s.v4 && first.empty()) first = ipx; }
+			std::string want = first.empty() ? "address_not_available" : "ok";
+			what += "send_to(unbound socket)";
+			ip::udp::endpoint dst(addr(s.v4 ? "10.0.0.9" : "fe80::9"), 6001); // nobody is bound there: the datagram itself goes nowhere
+			usock(op.o)->non_blocking(true);
+			std::size_t r = 0; VF_API(r = usock(op.o)->send_to(asio::buffer("i", 1), dst, 0, ec));
+			std::string got = ecs(ec); error_code e2; auto le = usock(op.o)->local_endpoint(e2); std::string gaddr = le.address().to_string(); int gport = le.port();
+			what += " -> " + got + (ec ? "" : fmt(" %zu [%s:%d]", r, gaddr.c_str(), gport));
+			if (got != want) fail("implicit_bind: " + what + ", the reference says " + want + " (an unbound socket binds itself to the wildcard address of its family, port 0)");
+			else if (want == "ok") {
+				if (gaddr != first) fail("bind_address: " + what + ": local_endpoint() address is " + gaddr + ", expected " + first);
+				if (gport < 1024 || ureg.count(k(first, gport))) fail("ephemeral: " + what + fmt(": the implicit bind yielded port %d which is %s", gport, gport < 1024 ? "privileged" : "already bound"));
+				s.bound = true; s.addr = gaddr; s.port = gport; if (!ureg.count(k(gaddr, gport))) ureg[k(gaddr, gport)] = ONAME[op.o];
+			}
+			sim->run();
+			log.push_back(what);
+			compare_registry(what);
+			return;
+		}
 		switch (op.k) {
 			case OPEN4: case OPEN6: {
 				bool v4 = op.k == OPEN4; what += v4 ? "open(v4)" : "open(v6)";
@@ -376,7 +398,7 @@ struct RegistryEngine : Engine
 		for (int c : hist) { if (!s.enabled(ops[size_t(c)])) return false; s.apply(ops[size_t(c)]); }
 		return true;
 	}
-	std::string op_str(Op const& o) { std::string s = std::string(ONAME[o.o]) + "/"; static const char* kn[] = { "open4", "open6", "bind", "connect", "close", "move", "destroy", "listen", "close()", "accept_one", "close_accepted" }; s += kn[o.k]; if (o.k == BIND) s += fmt("(%s:%d)", EPS[o.ep].a, EPS[o.ep].port); return s; }
+	std::string op_str(Op const& o) { std::string s = std::string(ONAME[o.o]) + "/"; static const char* kn[] = { "open4", "open6", "bind", "connect", "close", "move", "destroy", "listen", "close()", "accept_one", "close_accepted", "send_to(unbound)" }; s += kn[o.k]; if (o.k == BIND) s += fmt("(%s:%d)", EPS[o.ep].a, EPS[o.ep].port); return s; }
 
 	void report(Ctx& ctx, Sys& s, int variant, std::vector<int> const& hist)
 	{
